@@ -3,7 +3,11 @@
    run_node_update, unlink/link, mark_dependents_dirty); [Inv order s] is what the depth-first pass has to
    establish (topological order closed under dependents, every dirty node scheduled, symmetric edges);
    [LRF] excludes late subscription -- without it the statement is false of the code, see
-   C01_late_read_refuted (known finding F1). PARTIAL: the lemma that dfs establishes [Inv] is not proved. *)
+   C01_late_read_refuted (known finding F1).
+   End to end (Props/C01Write.v): [Quiescent] is what holds between writes; the depth-first pass
+   establishes [Inv] from it (C01_dfs_establishes_inv), so a whole late-read-free write leads from a quiescent
+   state to a quiescent state (C01_write_consistent), for any history of writes (C01_writes_consistent);
+   quiescent states are closed under node creation (C01_create_empty, C01_create_signal, C01_create_memo). *)
 From stdpp Require Import gmap list.
 From Coq Require Import ZArith.
 From Syc.ReactivePure Require Import Pure Loop LoopInv Ops Spec Step Extra.
